@@ -1,6 +1,8 @@
 package main
 
 import (
+	"fmt"
+	"net/http"
 	"sync"
 	"sync/atomic"
 	"time"
@@ -9,6 +11,7 @@ import (
 
 	"github.com/dadrus/heimdall/internal/config"
 	"github.com/dadrus/heimdall/internal/handler/requestcontext"
+	"github.com/dadrus/heimdall/internal/heimdall"
 	"github.com/dadrus/heimdall/internal/rules"
 	rconfig "github.com/dadrus/heimdall/internal/rules/config"
 	"github.com/dadrus/heimdall/internal/rules/rule"
@@ -67,6 +70,10 @@ func applyChange(proc rule.SetProcessor, op map[string]any) string {
 }
 
 func runConc(c map[string]any) (any, error) {
+	if getStr(c, "mode") == "panic" {
+		return runConcPanic(c)
+	}
+
 	conf := &config.Configuration{}
 	if getBool(c, "dr") {
 		conf.Default = &config.DefaultRule{
@@ -196,4 +203,230 @@ func runConc(c map[string]any) (any, error) {
 	}
 
 	return map[string]any{"init": initRes, "writers": conv(wres), "readers": conv(rres), "final": final}, nil
+}
+
+// ---------------------------------------------------------------------------------------------------------------
+// Scenario family "panicking lookup" (mode = "panic"): what a goroutine that panics inside the repository leaves
+// behind. A route matcher is code of a rule and runs inside the index lookup, i.e. under the read lock of FindRule;
+// Routes() of a rule runs inside the computation on the private clone, i.e. under knownRulesMutex. A panic there is
+// recovered far above the repository (the recover middleware of the request goroutine; here: recover around the
+// call), the process lives on, and every lock the goroutine held must have been released (deferred unlocks) —
+// otherwise the next rule-set change, and behind the pending writer every later lookup, waits for ever.
+//
+// The faulty rule is a rule.Rule / rule.Route implementation of the harness registered through the exported
+// rule.Repository interface of the real repository; everything else goes the ordinary way (rule-set processor,
+// real factory). The steps run one after the other (`par`: concurrently, with scheduling jitter) under a watchdog:
+// a step that does not finish within the (short) time limit of the case is reported as a deadlock together with the
+// step and the number of panics recovered before it.
+
+const (
+	faultyPath   = "/zzfaulty/p"
+	faultyMethod = http.MethodTrace // the marker request: matching it panics
+)
+
+type faultyRule struct {
+	id, src   string
+	panicFrom int32 // Routes() panics from this call on (counted from 0); negative: never
+	calls     atomic.Int32
+}
+
+type faultyRoute struct{ r *faultyRule }
+
+func (f *faultyRule) ID() string                                     { return f.id }
+func (f *faultyRule) SrcID() string                                  { return f.src }
+func (f *faultyRule) Execute(heimdall.Context) (rule.Backend, error) { return nil, nil } //nolint:nilnil
+func (f *faultyRule) SameAs(o rule.Rule) bool                        { return o.ID() == f.id && o.SrcID() == f.src }
+func (f *faultyRule) EqualTo(o rule.Rule) bool                       { return f.SameAs(o) }
+func (f *faultyRule) AllowsBacktracking() bool                       { return false }
+
+func (f *faultyRule) Routes() []rule.Route {
+	if n := f.calls.Add(1) - 1; f.panicFrom >= 0 && n >= f.panicFrom {
+		panic("verif: Routes() of a rule failed hard")
+	}
+
+	return []rule.Route{faultyRoute{f}}
+}
+
+func (f faultyRoute) Path() string {
+	if f.r.src == "zzfaulty" {
+		return faultyPath
+	}
+
+	return "/" + f.r.src + "/p"
+}
+
+func (f faultyRoute) Rule() rule.Rule { return f.r }
+
+func (f faultyRoute) Matches(ctx heimdall.Context, _, _ []string) bool {
+	if ctx.Request().Method == faultyMethod {
+		panic("verif: route matcher failed hard")
+	}
+
+	return true
+}
+
+// recovered runs f the way a request goroutine (or a provider's event loop) runs it: a panic ends the call, not the
+// process
+func recovered(f func()) (panicked bool) {
+	defer func() {
+		if r := recover(); r != nil {
+			panicked = true
+		}
+	}()
+
+	f()
+
+	return false
+}
+
+func runConcPanic(c map[string]any) (any, error) {
+	conf := &config.Configuration{}
+	if getBool(c, "dr") {
+		conf.Default = &config.DefaultRule{
+			BacktrackingEnabled: getBool(c, "dr_bt"),
+			Execute:             []config.MechanismConfig{{"authenticator": "d"}},
+		}
+	}
+
+	factory, err := rules.NewRuleFactory(stubFactory{}, conf, config.DecisionMode, zerolog.Nop())
+	if err != nil {
+		return nil, err
+	}
+
+	repo := rules.VerifNewRepository(factory)
+	proc := rules.NewRuleSetProcessor(repo, factory)
+
+	initRes := []any{}
+	for _, o := range getArr(c, "init") {
+		initRes = append(initRes, applyChange(proc, obj(o)))
+	}
+
+	// the rule whose matcher panics for the marker request; an ordinary request finds it
+	if err = repo.AddRuleSet("zzfaulty", []rule.Rule{&faultyRule{id: "zzf", src: "zzfaulty", panicFrom: -1}}); err != nil {
+		return nil, err
+	}
+
+	probe := findOnce(repo, map[string]any{"method": "GET", "host": "a.example.com", "target": faultyPath})
+	if m, _ := probe.(map[string]any); m == nil || m["rule"] != "zzfaulty/zzf" {
+		return nil, fmt.Errorf("the faulty rule is not reachable through the index: %v", probe)
+	}
+
+	var (
+		panics  atomic.Int64
+		current atomic.Int64
+		mu      sync.Mutex
+		results []any
+	)
+
+	var step func(o map[string]any) any
+
+	step = func(o map[string]any) any {
+		switch op := getStr(o, "op"); op {
+		case "find":
+			return findOnce(repo, o)
+		case "add", "upd", "del":
+			return applyChange(proc, o)
+		case "panicfind":
+			n := max(getInt(o, "n"), 1)
+			got := 0
+
+			for range n {
+				if recovered(func() {
+					findOnce(repo, map[string]any{"method": faultyMethod, "host": "a.example.com", "target": faultyPath})
+				}) {
+					got++
+
+					panics.Add(1)
+				}
+			}
+
+			return map[string]any{"panics": got, "of": n}
+		case "panicadd":
+			// Routes() panics inside addRulesTo: AddRuleSet panics while it holds knownRulesMutex
+			src := getStr(o, "src")
+			p := recovered(func() { _ = repo.AddRuleSet(src, []rule.Rule{&faultyRule{id: "g", src: src, panicFrom: 0}}) })
+
+			if p {
+				panics.Add(1)
+			}
+
+			return map[string]any{"panic": p}
+		case "panicdel":
+			// the rule set is loaded (first call of Routes()), deleting it panics inside removeRulesFrom
+			src := getStr(o, "src")
+			if err := repo.AddRuleSet(src, []rule.Rule{&faultyRule{id: "g", src: src, panicFrom: 1}}); err != nil {
+				return map[string]any{"harness_error": "loading the rule set to delete failed: " + errKind(err)}
+			}
+
+			p := recovered(func() { _ = repo.DeleteRuleSet(src) })
+			if p {
+				panics.Add(1)
+			}
+
+			return map[string]any{"panic": p}
+		case "par":
+			ops := getArr(o, "ops")
+			res := make([]any, len(ops))
+
+			var wg sync.WaitGroup
+
+			for i, sub := range ops {
+				wg.Add(1)
+
+				go func() {
+					defer wg.Done()
+
+					res[i] = step(obj(sub))
+				}()
+			}
+
+			wg.Wait()
+
+			return res
+		default:
+			return map[string]any{"harness_error": "unknown step " + op}
+		}
+	}
+
+	limit := time.Duration(getInt(c, "timeout_ms")) * time.Millisecond
+	if limit <= 0 {
+		limit = 4 * time.Second
+	}
+
+	zzsync.Enable(true, uint64(getInt(c, "seed")))
+	defer zzsync.Enable(false, 0)
+
+	steps := getArr(c, "steps")
+	finished := make(chan struct{})
+
+	go func() {
+		defer close(finished)
+
+		for k, o := range steps {
+			current.Store(int64(k))
+
+			r := step(obj(o))
+
+			mu.Lock()
+			results = append(results, r)
+			mu.Unlock()
+		}
+	}()
+
+	select {
+	case <-finished:
+	case <-time.After(limit):
+		mu.Lock()
+		done := append([]any{}, results...)
+		mu.Unlock()
+
+		k := int(current.Load())
+
+		return map[string]any{
+			"deadlock": true, "after_ms": limit.Milliseconds(), "step": k, "op": getStr(obj(steps[k]), "op"),
+			"panics_before": panics.Load(), "done": done, "init": initRes,
+		}, nil
+	}
+
+	return map[string]any{"init": initRes, "steps": results, "panics": panics.Load()}, nil
 }
